@@ -2,6 +2,7 @@
 namespace Aplang.Gen
 /-- (file, macro or call) -/
 def outputSites : List (String × String) := [
+  ("interpreter/env.rs", "io::stderr"),
   ("lib.rs", "println!"),
   ("main.rs", "eprintln!"),
   ("main.rs", "eprintln!"),
@@ -9,7 +10,6 @@ def outputSites : List (String × String) := [
   ("output.rs", "eprint!"),
   ("splash.rs", "println!"),
   ("splash.rs", "println!"),
-  ("standard_library/file_system.rs", "eprintln!"),
   ("standard_library/io.rs", "display!"),
   ("standard_library/io.rs", "io::stdout"),
   ("standard_library/io.rs", "display!"),
